@@ -707,7 +707,8 @@ impl World {
                 self.inc[e].clear();
             }
             ("deliver", _) => {
-                if matches!(t[1], "err" | "eof" | "close" | "closeerr" | "err2" | "closemany") {
+                let invalid_frame = t[1] == "bin" && t.get(2).is_some_and(|h| !frame_valid(h));
+                if matches!(t[1], "err" | "eof" | "close" | "closeerr" | "err2" | "closemany") || invalid_frame {
                     // C08: the end of the connection is acted on at once — the peer closed or the transport
                     // failed, the source yields nothing more — without waiting for the application to do
                     // anything (take a stream, read, …). Judged when the task was certainly not parked on a
@@ -717,10 +718,18 @@ impl World {
                         *self.mon.entry("exit-at-end/judged").or_insert(0) += 1;
                         if !evs.split("; ").any(|ev| ev.starts_with("exit ")) {
                             let msg = format!("endpoint {} was given `{}` (the connection has ended, its source yields nothing more; its receive loop was not waiting on a full queue, its sink accepts messages) and its task did not finish: every pending operation now waits for something the application may never do (events of the step: {})", NAMES[e], t.join(" "), if evs.is_empty() { "none" } else { evs });
-                            self.fail("C08", "end-not-acted-on", msg);
+                            if invalid_frame {
+                                // C10: a message that is not a valid frame ends the connection, with an error
+                                // every pending operation observes — whether or not the peer goes on to close
+                                let msg = format!("{msg} [the message is not a valid frame: PROTOCOL.md has the connection end with an error here, whatever the peer does next]");
+                                self.fail("C10", "end-not-acted-on", msg.clone());
+                                self.fail("C08", "end-not-acted-on", msg);
+                            } else {
+                                self.fail("C08", "end-not-acted-on", msg);
+                            }
                         }
                     }
-                    self.view[e].terminated_by = Some(t[1].into());
+                    self.view[e].terminated_by = Some(if invalid_frame { "bad".into() } else { t[1].into() });
                     self.faulted = true;
                     self.ep_faulted[e] = true;
                 }
@@ -1421,7 +1430,7 @@ fn run_case(r: &mut Rng, focus: Focus, len: usize) -> World {
                         w.stim(e, &[s("deliver"), s("bin"), hexd(&f)]);
                     }
                 }
-                3 => { w.injected = true; let n = r.range(0, 6) as usize; w.view[e].terminated_by = Some("bad".into()); let mut b = r.bytes(n); if !b.is_empty() { b[0] = 0x79; } w.stim(e, &[s("deliver"), s("bin"), hexd(&b)]); }
+                3 => { w.injected = true; let n = r.range(0, 6) as usize; let mut b = r.bytes(n); if !b.is_empty() { b[0] = 0x79; } w.stim(e, &[s("deliver"), s("bin"), hexd(&b)]); }
                 4 if w.sims[e].pending_futures() == 0 && w.view[e].mux_alive => { w.stim(e, &[s("dropmux")]); }
                 5 | 6 if !matches!(focus, Focus::C10) => {
                     // back-pressure: the sink stops / resumes accepting messages
